@@ -272,6 +272,7 @@ EDITS = {
         ("us04", "crates/lib/mimium-lang/src/ast/program.rs", "                process_use_statement(&visibility, &path, &target, module_prefix, module_info);\n                (!imported_stmts", "                if imported_stmts.is_empty() {\n                    process_use_statement(&visibility, &path, &target, module_prefix, module_info);\n                } else {\n                    process_use_statement(&Visibility::Public, &path, &target, module_prefix, module_info);\n                }\n                (!imported_stmts", "verus", "use_tables"),
         ("us05", "crates/lib/mimium-lang/src/ast/program.rs", "                        module_info\n                            .loaded_external_modules\n                            .insert(absolute_module_symbol);\n", "                        module_info\n                            .loaded_external_modules\n                            .insert(local_module_symbol);\n", "verus", "use_tables"),
         ("us06", "crates/lib/mimium-lang/src/ast/program.rs", "                process_use_statement(&visibility, &path, &target, module_prefix, module_info);\n                (!imported_stmts", "                process_use_statement(&Visibility::Public, &path, &target, module_prefix, module_info);\n                (!imported_stmts", "verus", "use_tables"),
+        ("im01", "crates/lib/mimium-lang/src/ast/program.rs", "                    stmts_from_program(imported.program, imported.resolved_path, errs, module_info);", "                    stmts_from_program_with_prefix(imported.program.statements, imported.resolved_path, errs, module_prefix, module_info);", "verus", "use_tables"),
         ("rn01", "crates/lib/mimium-lang/src/compiler/mirgen/convert_qualified_names.rs", "resolved_path.len() < 2", "resolved_path.len() < 1", "verus", "resolve_names"),
         ("rn02", "crates/lib/mimium-lang/src/compiler/mirgen/convert_qualified_names.rs", "self.current_module_context.starts_with(target_module)", "target_module.starts_with(&self.current_module_context)", "verus", "resolve_names"),
         ("rn03", "crates/lib/mimium-lang/src/compiler/mirgen/convert_qualified_names.rs", "        if !is_public && !is_same_module {", "        if !is_public && is_same_module {", "verus", "resolve_names"),
@@ -381,6 +382,7 @@ NEUTRAL = {
         ("nt-rw2", CQ, "        let _ = self.local_bindings.pop();", "        self.local_bindings.pop();", "resolve_walk"),
         ("nt-rw3", CQ, "        Expr::Proj(e, _) => collect_defined_names(e, names),", "        // projections bind nothing themselves\n        Expr::Proj(e, _) => collect_defined_names(e, names),", "resolve_walk"),
         ("nt-tp1", "crates/lib/mimium-lang/src/compiler/typing.rs", "                        let type_name = type_path.last().unwrap().to_symbol();\n\n                        // Report error for private type access", "                        let type_name = type_path.last().unwrap().to_symbol();\n\n                        // Report the access to the private type", "type_privacy"),
+        ("nt-im1", "crates/lib/mimium-lang/src/ast/program.rs", "                let res =\n                    stmts_from_program(imported.program, imported.resolved_path, errs, module_info);\n                Some(res)", "                let included =\n                    stmts_from_program(imported.program, imported.resolved_path, errs, module_info);\n                (!included.is_empty()).then_some(included)", "use_tables"),
     ],
     "C20": [
         ("nt-ff1", "crates/lib/mimium-lang/src/runtime/ffi_serde.rs", "            FfiValue::Unit => Value::Unit,\n            FfiValue::Number(n) => Value::Number(n),", "            FfiValue::Number(x) => Value::Number(x),\n            FfiValue::Unit => Value::Unit,", "ffi_serde"),
